@@ -1,7 +1,7 @@
 \* thorough (layout): all eol / final-newline combinations of both files
 SPECIFICATION Spec
 CONSTANTS
-  Histories <- HistoriesLayout
+  Pool = "layout"
   NameRule = "file"
   CopyNode = TRUE
   KeepCR = TRUE
